@@ -535,10 +535,18 @@ impl World {
         id
     }
 
+    /// Join the baton threads.  A thread that is still parked (a blocking call that can never
+    /// return: the scenario reports that as a hang) is detached instead, it stays parked forever.
     pub fn join_threads(&self) {
-        let hs = std::mem::take(&mut self.0.st.lock().unwrap().handles);
-        for h in hs {
-            let _ = h.join();
+        let (hs, all_done) = {
+            let mut st = self.0.st.lock().unwrap();
+            let done = st.threads.values().all(|t| t.status == ThreadStatus::Done);
+            (std::mem::take(&mut st.handles), done)
+        };
+        if all_done {
+            for h in hs {
+                let _ = h.join();
+            }
         }
     }
 
